@@ -11,6 +11,10 @@
 //!     final quiescence, gates still closed) every child has been signalled: it reached >= Stopping
 //!     c ::= stop | drain | kill | killhandler | err | panic | stopkill | prefail | prepanic
 //!         | postfail | pserr | pspanic | prekill | postkill
+//!         | abort0 (the loop task's JoinHandle is aborted before the task was ever polled: spawn to
+//!           completion, then no yield until `x` = abort()) | abortidle | aborthandler (abort while idle /
+//!           inside a parked handler) | abortps (stop, then abort while post_stop is parked: op `ab`)
+//!           | abortstart (spawn_instant, the start task is aborted while pre_start is parked)
 //!     op ::= w <id> <kind> <tmo>   spawn waiter task <id>; kind = wait|stopw|killw|drainw|join|inline,
 //!                                  tmo = none|short|long   (short = 500 ms, long = 1 h)
 //!                                  inline = wait(None) polled by hand with a waker that re-polls the
@@ -384,7 +388,7 @@ async fn run_scenario(line: &str) -> String {
             "prepanic" => Res::Panic,
             _ => Res::Ok,
         },
-        pre_gate: matches!(cause.as_str(), "prefail" | "prepanic" | "prekill").then(|| start_gate.clone()),
+        pre_gate: matches!(cause.as_str(), "prefail" | "prepanic" | "prekill" | "abortstart").then(|| start_gate.clone()),
         post_start: if cause == "postfail" { Res::Err } else { Res::Ok },
         post_start_gate: matches!(cause.as_str(), "postfail" | "postkill").then(|| start_gate.clone()),
         ps: match cause.as_str() {
@@ -409,7 +413,9 @@ async fn run_scenario(line: &str) -> String {
     let (marker, _marker_h) = Actor::spawn(None, Kid, ()).await.expect("marker");
 
     // the actor under observation
-    let instant = matches!(cause.as_str(), "prefail" | "prepanic" | "prekill");
+    let instant = matches!(cause.as_str(), "prefail" | "prepanic" | "prekill" | "abortstart");
+    // abort0: nothing may yield between the return of spawn and the abort (op `x`)
+    let mut hold = cause == "abort0";
     let (main_cell, join): (ActorCell, AnyJoin) = if instant {
         // pre_start failures: the cell must exist before pre_start fails so that waiters can
         // register; spawn_instant returns it immediately (no supervisor in this mode)
@@ -422,8 +428,14 @@ async fn run_scenario(line: &str) -> String {
         let (r, h) = Actor::spawn(Some(name.clone()), Main, cfg).await.expect("spawn");
         (r.get_cell(), AnyJoin::Plain(h))
     };
+    let abort_handle = match &join {
+        AnyJoin::Plain(h) => h.abort_handle(),
+        AnyJoin::Instant(h) => h.abort_handle(),
+    };
     let mut join = Some(join);
-    settle().await;
+    if !hold {
+        settle().await;
+    }
     pg::monitor(group.clone(), sup_ref.get_cell());
     pg::join(group.clone(), vec![main_cell.clone()]);
     let mut kid_cells = Vec::new();
@@ -451,11 +463,13 @@ async fn run_scenario(line: &str) -> String {
         kid_gates.push(g);
         kid_cells.push(k.get_cell());
     }
-    if cause == "killhandler" {
+    if cause == "killhandler" || cause == "aborthandler" {
         let r: ActorRef<Msg> = main_cell.clone().into();
         r.cast(Msg::Park).expect("park");
     }
-    settle().await;
+    if !hold {
+        settle().await;
+    }
 
     let ctx = Arc::new(Ctx { cell: main_cell.clone(), name: name.clone(), group: group.clone(), flags: flags.clone() });
     // (waiter, outcome, snapshot) in completion order
@@ -500,7 +514,9 @@ async fn run_scenario(line: &str) -> String {
                     });
                     inl.poll_now();
                     inlines.push((id, inl));
-                    settle().await;
+                    if !hold {
+                        settle().await;
+                    }
                     statuses.push(main_cell.get_status());
                     continue;
                 }
@@ -550,7 +566,11 @@ async fn run_scenario(line: &str) -> String {
                 started.push((id, task));
             }
             "x" => match cause.as_str() {
-                "stop" | "stopkill" | "pserr" | "pspanic" => main_cell.stop(None),
+                "stop" | "stopkill" | "pserr" | "pspanic" | "abortps" => main_cell.stop(None),
+                "abort0" | "abortidle" | "aborthandler" | "abortstart" => {
+                    abort_handle.abort();
+                    hold = false;
+                }
                 "drain" => {
                     let _ = main_cell.drain();
                 }
@@ -568,6 +588,7 @@ async fn run_scenario(line: &str) -> String {
             },
             "g" => ps_gate.open(),
             "k" => main_cell.kill(),
+            "ab" => abort_handle.abort(),
             "s" => main_cell.stop(None),
             "d" => {
                 let _ = main_cell.drain();
@@ -575,7 +596,9 @@ async fn run_scenario(line: &str) -> String {
             "a" => tokio::time::advance(Duration::from_millis(1000)).await,
             o => panic!("bad op {o}"),
         }
-        settle().await;
+        if !hold {
+            settle().await;
+        }
         statuses.push(main_cell.get_status());
     }
     settle().await;
